@@ -13,7 +13,7 @@ def find(ctx, name):
 
 def run(ctx):
     thorough = ctx.tier == "thorough"
-    ctx.rule = ("cases = every (constructor list, provider list, AddMiddleware list) of middleware kinds {observe, rewrite "
+    ctx.rule = ("cases = every (constructor list, provider list, AddMiddleware list) of middleware kinds {observe, clear error, retry (calls next twice, keeps the first results), rewrite "
                 "argument, rewrite result, replace error} with lists of length 0..2 (thorough 0..3) and 0..1 AddMiddleware, "
                 "enumerated by TLC with the enter/exit log, final result, error and handler-side argument that Middleware's Invoke "
                 "forces (TLC also checks OncePerLayer / Nested / FarSideSeesLastRewrite on each). Each case runs on the generated "
@@ -24,7 +24,7 @@ def run(ctx):
                         "publishers / subscribers have no result value: 'rewrite result' layers are exercised on services only"]
     n = 3 if thorough else 2
     ctx.tlc_must_hold("Middleware", "m.cfg", workers=4, timeout=1800, heap="10g", cfg_text=(
-        "SPECIFICATION Spec\nCONSTANTS MaxLen = %d\nINVARIANTS OncePerLayer Nested FarSideSeesLastRewrite\nCHECK_DEADLOCK FALSE\n" % n))
+        "SPECIFICATION Spec\nCONSTANTS MaxLen = %d\nINVARIANTS OncePerLayer Nested FarSideSeesLastRewrite FirstResultKept\nCHECK_DEADLOCK FALSE\n" % n))
     cases_file = find(ctx, "middleware_cases.json")
     cases = json.load(open(cases_file))
     binary = ctx.go_build("mwcheck")
